@@ -17,6 +17,7 @@ R26.3  schema agreement (cppcheck-errors.rng parsed as XML): for every element t
        XML sink are among the schema's choices.
 R26.4  SarifReport::serialize returns picojson::value::serialize(); no function of lib/sarifreport.cpp builds JSON
        structure by string concatenation (no literal containing '{', '[' or '":').
+R26.6  the duplicate filter in StdLogger::reportErr (in front of all three writers) does not depend on the output format.
 R26.5  every {field} documented under --template / --template-location in the help text is substituted by
        ErrorMessage::toString (set inclusion on the string literals).
 """
@@ -233,6 +234,8 @@ def run(ctx):
                ('severityToString can return "%s" for a finding that reaches the XML output but the schema\'s <choice> for severity does not list it' % v),
                '%s:%d' % (sts['file'], sts['line']))
 
+    r26_6(ctx)
+
     # ---- R26.4 ------------------------------------------------------------------------------------------------------
     sar = [f for f in F.all_fns() if f['file'] == 'lib/sarifreport.cpp' and F.body(f) is not None]
     ctx.floor('R26.4 functions in lib/sarifreport.cpp', len(sar), 4)
@@ -295,3 +298,65 @@ def run(ctx):
         ctx.ob('R26.5', 'field:%s' % fld, ok, ('{%s} is substituted by ErrorMessage::toString' % fld) if ok else
                ('the help text documents the template field {%s} but ErrorMessage::toString never replaces it: it is printed verbatim' % fld),
                '%s:%d' % (ph['file'], ph['line']))
+
+
+def r26_6(ctx):
+    """R26.6  the three formats carry the same findings only if the duplicate filter in front of them does not depend on the format: in
+    StdLogger::reportErr the key inserted into mShownErrors is computed without reading Settings::outputFormat (directly or through locals),
+    and the insertion is not guarded by a condition on the output format."""
+    from .common import paths
+    F = ctx.facts
+    ctx.rule('R26.6', 'the duplicate filter in front of the text / XML / SARIF writers is format-independent')
+    cands = [f for f in F.find('StdLogger::reportErr') if f.get('params') and 'ErrorMessage' in f['params'][0]['t']]
+    if len(cands) != 1:
+        raise AnalysisBroken('StdLogger::reportErr(const ErrorMessage&): %d candidates' % len(cands))
+    f = cands[0]
+    body = F.body(f)['body']
+    inits = {x['di']: x['init'] for x in walk(body) if x.get('k') == 'VarDecl' and x.get('init') is not None}
+
+    def reads_format(expr, seen=None):
+        seen = seen or set()
+        for y in walk(expr):
+            if y.get('k') == 'MemberExpr' and y.get('n') == 'Settings::outputFormat':
+                return True
+            if y.get('k') == 'DeclRefExpr' and y.get('di') in inits and y['di'] not in seen:
+                seen.add(y['di'])
+                if reads_format(inits[y['di']], seen):
+                    return True
+        return False
+    ins = [x for x in walk(body) if x.get('k') == 'CXXMemberCallExpr' and (x.get('fn') or '').split('::')[-1] in ('insert', 'emplace') and
+           any(y.get('k') == 'MemberExpr' and y.get('n') == 'StdLogger::mShownErrors' for y in walk(x['c'][0]))]
+    ctx.floor('R26.6 insertions into StdLogger::mShownErrors', len(ins), 1)
+
+    def cond(n, truth):
+        n0 = strip(n)
+        if n0 is not None and reads_format(n0):
+            return (('format-dependent', truth),)
+        return ()
+    r = paths.analyse(body, cond=cond, observe=lambda n: any(n is i for i in ins))
+    for i, x in enumerate(ins):
+        args = call_args(x)
+        dep = any(reads_format(a) for a in args)
+        st = r.at.get(id(x), frozenset())
+        guarded = any(isinstance(l, tuple) and l[0] == 'format-dependent' for l in st)
+        # the key must also be independent of the user's text template: XML and SARIF do not use the template, but a template that omits the
+        # location makes distinct findings share a key
+        def reads_template(expr, seen=None):
+            seen = seen or set()
+            for y in walk(expr):
+                if y.get('k') == 'MemberExpr' and y.get('n') in ('Settings::templateFormat', 'Settings::templateLocation'):
+                    return True
+                if y.get('k') == 'DeclRefExpr' and y.get('di') in inits and y['di'] not in seen:
+                    seen.add(y['di'])
+                    if reads_template(inits[y['di']], seen):
+                        return True
+            return False
+        tdep = any(reads_template(a) for a in args)
+        ctx.ob('R26.6', 'dedup-key-template#%d' % i, not tdep, 'the key of the duplicate filter does not depend on the user\'s --template' if not tdep else
+               'the duplicate filter of StdLogger::reportErr uses the finding rendered with the user\'s --template as its key, also for XML and SARIF output: a template without '
+               'location fields makes distinct findings equal, and they are dropped from the XML / SARIF report', '%s:%s' % (f['file'], x['l']))
+        ok = not dep and not guarded
+        ctx.ob('R26.6', 'dedup-key#%d' % i, ok, 'the key of the duplicate filter is computed the same way for every output format' if ok else
+               ('the duplicate filter of StdLogger::reportErr %s: two findings can be distinct in one format and collapsed in another, so text, XML and SARIF '
+                'no longer carry the same findings' % ('computes its key from Settings::outputFormat' if dep else 'is guarded by a condition on the output format')),
+               '%s:%s' % (f['file'], x['l']))
